@@ -217,6 +217,30 @@ impl Mutex<bool> {
     { unimplemented!() }
 }
 
+/// a mutex whose critical sections are recorded in a ghost log (before, after) for the calling thread
+#[verifier::reject_recursive_types(T)]
+#[verifier::external_body]
+pub struct LogMutex<T> { t: core::marker::PhantomData<T> }
+pub tracked struct LCtx<T> { pub ghost log: Seq<(T, T)> }
+impl<T> LogMutex<T> {
+    #[verifier::external_body]
+    pub fn lock<'a>(&'a self, Tracked(ctx): Tracked<&'a mut LCtx<T>>) -> (r: LockResult<&'a mut T>)
+        ensures r is Ok, final(ctx).log == old(ctx).log.push((*(r->Ok_0), *final(r->Ok_0))),
+    { unimplemented!() }
+
+    /// try_lock may fail (lock held elsewhere): then no section took place
+    #[verifier::external_body]
+    pub fn try_lock<'a>(&'a self, Tracked(ctx): Tracked<&'a mut LCtx<T>>) -> (r: LockResult<&'a mut T>)
+        ensures
+            r is Ok ==> final(ctx).log == old(ctx).log.push((*(r->Ok_0), *final(r->Ok_0))),
+            r is Err ==> final(ctx).log == old(ctx).log,
+    { unimplemented!() }
+
+    #[verifier::external_body]
+    pub fn new(v: T) -> (r: Self) { unimplemented!() }
+}
+
+
 // ------------------------------------------------------------------ jobs and user code (A5)
 
 pub struct Context { pub waker: Waker }
